@@ -401,10 +401,12 @@ const std::vector<HarnessInfo>& harnesses() {
   return *g_harnesses;
 }
 
+static const char* kKind[] = {"load", "store", "rmw", "fence", "lock", "unlock", "spawn", "join", "yield", "choice", "end", "wait", "notify", "kernel", "time"};
+static bool g_trace = getenv("VMC_TRACE") != nullptr;
 void point(const void* addr, int kind) {
-  (void)addr; (void)kind;
   if (tl_self < 0 || tl_in_rt) return;
   Ign ig; RtGuard rg;
+  if (g_trace) std::fprintf(stderr, "[%u] T%d %s %p\n", g_rec->npoints.load(), tl_self, kKind[kind], addr);
   if (++g_steps > g_cfg.max_steps) die("*", "horizon", "execution did not terminate within the step horizon (unbounded loop?)");
   g_rec->steps = g_steps;
   int next = decide(tl_self, true, false);
@@ -531,7 +533,6 @@ void expect_terminate(bool on) { g_expect_terminate = on; }
 
 void mutex_lock(Mutex* m, bool recursive) {
   if (tl_self < 0) { m->owner = -2; return; }
-  point(m, K_LOCK);
   Ign ig; RtGuard rg;
   T& me = *g_threads[tl_self];
   if (recursive && m->owner == tl_self) { ++m->depth; return; }
@@ -545,7 +546,6 @@ void mutex_lock(Mutex* m, bool recursive) {
 }
 bool mutex_try_lock(Mutex* m, bool recursive) {
   if (tl_self < 0) { if (m->owner != -1) return false; m->owner = -2; return true; }
-  point(m, K_LOCK);
   Ign ig; RtGuard rg;
   if (recursive && m->owner == tl_self) { ++m->depth; return true; }
   if (m->owner != -1) { tl_in_rt = false; observed(m, K_LOCK, 1, false); tl_in_rt = true; return false; }
@@ -555,7 +555,6 @@ bool mutex_try_lock(Mutex* m, bool recursive) {
 }
 void mutex_unlock(Mutex* m) {
   if (tl_self < 0) { m->owner = -1; return; }
-  point(m, K_UNLOCK);
   Ign ig; RtGuard rg;
   if (m->owner != tl_self) die("*", "mutex-misuse", "unlock of a mutex not owned by the caller");
   if (--m->depth > 0) return;
@@ -563,8 +562,17 @@ void mutex_unlock(Mutex* m) {
   tl_in_rt = false; observed(m, K_UNLOCK, 0, true); tl_in_rt = true;
 }
 
+void mutex_destroyed(Mutex* m) {
+  if (tl_self < 0 || tl_in_rt || !g_active) return;
+  Ign ig; RtGuard rg;
+  for (auto& t : g_threads)
+    if (t->st == BLOCKED && (t->wk == W_MUTEX || t->wk == W_CV) && t->wm == m)
+      die("*", "mutex-destroyed-with-waiter", "a mutex was destroyed while another thread is blocked on it (object freed under a concurrent user)");
+  if (m->owner >= 0 && m->owner != tl_self)
+    die("*", "mutex-destroyed-while-held", "a mutex was destroyed while another thread holds it (object freed under a concurrent user)");
+}
+
 static bool cv_wait_impl(CondVar* cv, Mutex* m, bool timed, long long deadline) {
-  point(cv, K_WAIT);
   Ign ig; RtGuard rg;
   T& me = *g_threads[tl_self];
   if (m->owner != tl_self) die("*", "mutex-misuse", "condition_variable wait without owning the mutex");
@@ -596,7 +604,6 @@ bool cv_wait_until(CondVar* cv, Mutex* m, long long deadline) {
 }
 void cv_notify(CondVar* cv, bool all) {
   if (tl_self < 0) return;
-  point(cv, K_NOTIFY);
   Ign ig; RtGuard rg;
   if (cv->waiters.empty()) { tl_in_rt = false; observed(cv, K_NOTIFY, 0, false); tl_in_rt = true; g_threads[tl_self]->ring.clear(); return; }
   if (all) cv->waiters.clear();
@@ -619,10 +626,12 @@ void sleep_until_ns(long long deadline) {
   me.hist = mix(me.hist, (uint64_t)(g_now - kEpoch));
 }
 void call_once_impl(OnceFlag* f, const std::function<void()>& fn) {
+  point(&f->m, K_LOCK);
   mutex_lock(&f->m);
   if (f->state == 0) {
-    try { fn(); f->state = 2; } catch (...) { mutex_unlock(&f->m); throw; }
+    try { fn(); f->state = 2; } catch (...) { point(&f->m, K_UNLOCK); mutex_unlock(&f->m); throw; }
   }
+  point(&f->m, K_UNLOCK);
   mutex_unlock(&f->m);
 }
 
